@@ -371,6 +371,9 @@ pub enum Step {
     /// the wait built-in: `wait` must return > 128 at once and the action must run right after it.
     /// Used at most once per case, without any other delivery, in non-interactive shells.
     WaitHeld(u8),
+    /// like `WaitHeld`, with a second trap (`trap 'mark U $?' USR2`) and USR1 and USR2 raised at the
+    /// same instant: both actions must run, once each, before the command after `wait`
+    WaitHeld2(u8),
 }
 
 /// expected `$?` of a mark that follows the interrupted `wait`: any value > 128, the same the
@@ -394,14 +397,18 @@ fn check_deliver(c: &DeliverCase) -> Outcome {
     // expected (without asynchronous delivery): sequence of (marker, status)
     let mut expect: Vec<(String, i32)> = vec![];
     let mut status = 0;
-    let held = c.raise_at.is_none() && c.interactive_pipe.is_none() && c.steps.iter().any(|s| matches!(s, Step::WaitHeld(_)));
+    let held = c.raise_at.is_none() && c.interactive_pipe.is_none() && c.steps.iter().any(|s| matches!(s, Step::WaitHeld(_) | Step::WaitHeld2(_)));
+    let held_both = held && matches!(c.steps.iter().find(|s| matches!(s, Step::WaitHeld(_) | Step::WaitHeld2(_))), Some(Step::WaitHeld2(_)));
+    if held_both {
+        script.push_str("trap 'mark U $?' USR2\n");
+    }
     let mut held_done = false;
     for s in &c.steps {
         if (c.raise_at.is_some() || held) && matches!(s, Step::Kill) {
             continue; // one kind of delivery per case keeps the attribution of T entries unambiguous
         }
         match s {
-            Step::WaitHeld(n) => {
+            Step::WaitHeld(n) | Step::WaitHeld2(n) => {
                 if held && !held_done {
                     held_done = true;
                     script.push_str(&format!("( hold; st {n} ) &\nmark W\nwait $!\nmark A\nrelease\nwait $!\n"));
@@ -475,6 +482,7 @@ fn check_deliver(c: &DeliverCase) -> Outcome {
     s.raise_usr1_at_step = c.raise_at;
     if held {
         s.raise_usr1_when_blocked_after = Some("W".into());
+        s.raise_usr2_too = held_both;
         s.preempt = true;
         s.drain = true; // let the released child end
     }
@@ -494,13 +502,14 @@ fn check_deliver(c: &DeliverCase) -> Outcome {
     let raised = r.log.raised;
     // synchronous part: remove the (at most one) asynchronous T entry and compare
     let mut actual: Vec<(String, i32)> = vec![];
-    let mut async_t: Vec<(usize, i32, i32)> = vec![]; // (position, status seen by the action, $? printed)
+    let mut async_t: Vec<(usize, i32, i32, String)> = vec![]; // (position, status seen by the action, $? printed, T or U)
+    let need = if held_both { 2 } else { 1 };
     let mut exp_iter = expect.iter().peekable();
     for (pos, (name, st, args)) in got.iter().enumerate() {
         let matches_expected = exp_iter.peek().is_some_and(|e| &e.0 == name && (name != "T" || true));
-        if name == "T" {
+        if name == "T" || name == "U" {
             let shown: i32 = args.get(1).and_then(|s| s.parse().ok()).unwrap_or(-1);
-            if exp_iter.peek().is_some_and(|e| e.0 == "T") {
+            if name == "T" && exp_iter.peek().is_some_and(|e| e.0 == "T") {
                 // a synchronous (self-kill) trap execution
                 let e = exp_iter.next().unwrap();
                 if shown != e.1 {
@@ -509,7 +518,7 @@ fn check_deliver(c: &DeliverCase) -> Outcome {
                 actual.push((name.clone(), *st));
                 continue;
             }
-            async_t.push((pos, *st, shown));
+            async_t.push((pos, *st, shown, name.clone()));
             continue;
         }
         let _ = matches_expected;
@@ -520,20 +529,24 @@ fn check_deliver(c: &DeliverCase) -> Outcome {
                 if e.1 == INTERRUPTED {
                     // the mark after the interrupted wait: the action ran directly before it and
                     // both saw the status of the interrupted wait, which is > 128
-                    let t = async_t.last().copied();
-                    if t.map(|t| t.0 + 1) != Some(pos) {
+                    let ok_positions = async_t.len() >= need && async_t[async_t.len() - need..].iter().enumerate().all(|(k, a)| a.0 + need - k == pos);
+                    if !ok_positions {
                         return Outcome::fail(ctx(format!(
-                            "USR1 arrived while the shell was blocked in `wait`, but the action did not run between `wait` and the next command: {got:?}"
+                            "{need} trapped signal(s) arrived while the shell was blocked in `wait`, but not every action ran between `wait` and the next command: {got:?}"
                         )));
+                    }
+                    if held_both && async_t[async_t.len() - 2].3 == async_t[async_t.len() - 1].3 {
+                        return Outcome::fail(ctx(format!("USR1 and USR2 arrived together but one action ran twice: {got:?}")));
                     }
                     // yash-rs runs the action inside the built-in ("the trap action is executed and
                     // the built-in returns immediately", docs/src/builtins/wait.md), where `$?` is
                     // still that of the previous command (0, left by `mark W`); POSIX words it as
                     // wait returning first. Either way the next command must see the status > 128.
-                    if *st <= 128 || !t.is_some_and(|t| t.1 == *st || t.1 == 0) {
+                    let first = &async_t[async_t.len() - need];
+                    if *st <= 128 || !(first.1 == *st || first.1 == 0) {
                         return Outcome::fail(ctx(format!(
-                            "`wait` interrupted by a trapped signal must return > 128 (and the action sees that status or the one before `wait`): action saw {:?}, next command saw {st}",
-                            t.map(|t| t.1)
+                            "`wait` interrupted by a trapped signal must return > 128 (and the action sees that status or the one before `wait`): action saw {}, next command saw {st}",
+                            first.1
                         )));
                     }
                 } else if e.1 != *st {
@@ -550,11 +563,12 @@ fn check_deliver(c: &DeliverCase) -> Outcome {
     match (raised, async_t.len()) {
         (false, 0) => {}
         (false, n) => return Outcome::fail(ctx(format!("{n} trap execution(s) without any asynchronous delivery: {got:?}"))),
-        (true, 1) => {
+        (true, n) if n == need => {
             // the action prints the $? it saw as its second argument; it must equal the $? on entry
-            let (_, st, shown) = async_t[0];
-            if st != shown {
-                return Outcome::fail(ctx(format!("trap action: $? on entry {st} but it printed {shown}")));
+            for (_, st, shown, _) in &async_t {
+                if st != shown {
+                    return Outcome::fail(ctx(format!("trap action: $? on entry {st} but it printed {shown}")));
+                }
             }
         }
         // delivered when every command of the script had already run (the shell was waiting for
@@ -563,7 +577,7 @@ fn check_deliver(c: &DeliverCase) -> Outcome {
             return Outcome::pass(false).class("delivered-after-the-last-command");
         }
         (true, 0) => return Outcome::fail(ctx(format!("USR1 was delivered to the shell (step {:?}) but the trap action never ran: {got:?}", c.raise_at))),
-        (true, n) => return Outcome::fail(ctx(format!("one asynchronous delivery but {n} trap executions: {got:?}"))),
+        (true, n) => return Outcome::fail(ctx(format!("{need} asynchronous deliveries but {n} trap executions: {got:?}"))),
     }
     if r.status != status {
         return Outcome::fail(ctx(format!("final status {} expected {status}", r.status)));
@@ -575,6 +589,7 @@ fn check_deliver(c: &DeliverCase) -> Outcome {
         .class_if(raised && async_t.first().is_some_and(|a| a.0 + 1 < got.len()), "delivery-before-last-command")
         .class_if(c.raise_at.is_some() && !raised, "raise-point-beyond-run")
         .class_if(held && raised, "delivery-while-blocked-in-wait")
+        .class_if(held_both && raised, "two-signals-at-once-while-blocked-in-wait")
         .class_if(c.interactive_pipe.is_some(), "interactive-shell-fed-through-a-pipe")
         .class_if(c.interactive_pipe.is_some() && c.steps.contains(&Step::Read), "read-built-in-may-block")
 }
@@ -800,6 +815,7 @@ fn arb_step() -> impl Strategy<Value = Step> {
         2 => Just(Step::Kill),
         2 => Just(Step::Read),
         2 => (0u8..4).prop_map(Step::WaitHeld),
+        1 => (0u8..4).prop_map(Step::WaitHeld2),
     ]
 }
 
